@@ -57,6 +57,9 @@ KeyName(k) == CASE k = 1 -> "cust" [] k = 2 -> "time" [] k = 3 -> "tid" [] k = 4
 
 \* pixels of frame t selected by the bit mask over in-frame positions
 Stroke(t, bits) == {q \in Pix : FrameOf(q) = t /\ Bit(bits, InFrame(q))}
+\* a paint call with t >= T is a stroke over TWO time points: the same in-frame pixels in frames t - T and t - T + 1
+\* (an invalid argument when a label is painted: "can only update one time point at a time")
+PaintStroke(c) == IF c[2] >= T THEN Stroke(c[2] - T, c[3]) \cup Stroke(c[2] - T + 1, c[3]) ELSE Stroke(c[2], c[3])
 
 AddNodeArgs(c) ==
     [n |-> c[2], t |-> IF Bit(c[5], 2) THEN NoT ELSE c[3], tid |-> IF Bit(c[5], 3) THEN None ELSE c[4],
@@ -117,7 +120,7 @@ StepOrd(S, c, ord) ==
       [] c[1] = KDisable -> NormSw(Disable(S, FeatSet(c[2]), Bit(c[2], 8)))
       [] c[1] = KRebuild -> Rebuild(S, c[2])
       [] c[1] = KPaint   ->
-            LET st == Stroke(c[2], c[3])
+            LET st == PaintStroke(c)
                 r  == Norm(UPaint(PaintedSeg(S, st, c[4]), S.seg, st, c[4], c[5] \div 2, c[5] % 2 = 1, ord))
             \* after a refused update the CALLER restores the pixels it had painted (C11)
             IN IF r.ok \/ ~HasSeg THEN r
@@ -297,7 +300,7 @@ NamedTids(c) == CASE c[1] = KAddNode -> {c[4]} [] c[1] = KPaint -> {c[5] \div 2}
 Touched(x) == LET pn == {n \in Node : n \in NamedNodes(x.c)}
                   pt == {n \in Present(x.pre) : x.pre.tid[n] \in NamedTids(x.c)}
                   \* a paint also names the nodes whose pixels it overwrites
-                  po == IF x.c[1] = KPaint THEN {x.pre.seg[q] : q \in Stroke(x.c[2], x.c[3])} \ {0} ELSE {}
+                  po == IF x.c[1] = KPaint THEN {x.pre.seg[q] : q \in PaintStroke(x.c)} \ {0} ELSE {}
               IN pn \cup pt \cup po
 Untouched(x) == {n \in Present(x.pre) \cap Present(x.post) :
                     (Comp(x.pre, n) \cup Comp(x.post, n)) \cap Touched(x) = {}}
@@ -382,8 +385,8 @@ P_URValid(x) == (PFValid(x.pf) /\ Accepted(x) /\ ~IsPrim(x.c)) => (Valid(x.u_pos
 \* (labels and nodes must correspond after a REFUSED action too - "after any sequence of user actions")
 P_C07(x) == (HasSeg /\ x.pf.forest /\ x.pf.seg /\ ~IsPrim(x.c) /\ ~IsSwitch(x.c)) =>
     /\ SegOK(x.post)
-    /\ (x.ok /\ x.c[1] = KPaint) => \A q \in Stroke(x.c[2], x.c[3]) : x.post.seg[q] = x.c[4]
-    /\ (x.ok /\ x.c[1] = KPaint) => \A q \in Pix \ Stroke(x.c[2], x.c[3]) : x.post.seg[q] = x.pre.seg[q]
+    /\ (x.ok /\ x.c[1] = KPaint) => \A q \in PaintStroke(x.c) : x.post.seg[q] = x.c[4]
+    /\ (x.ok /\ x.c[1] = KPaint) => \A q \in Pix \ PaintStroke(x.c) : x.post.seg[q] = x.pre.seg[q]
 \* (the primitives that write pixels - AddNode, UpdateNodeSeg - notify the annotators themselves: judged under their
 \*  documented preconditions)
 P_C08(x) == (HasSeg /\ PFValid(x.pf) /\ x.ok /\ ~IsSwitch(x.c)
